@@ -45,7 +45,7 @@ struct Gen {
     /// a fixed pair of field types that together mention every parameter (None: any field of `tys` does)
     pair: Option<(&'static str, &'static str)>,
 }
-const GENS: [Gen; 15] = [
+const GENS: [Gen; 16] = [
     Gen { name: "none", decl: "", wh: "", tys: &["i8", "(u8, bool)", "[u8; 2]"], pair: None },
     Gen { name: "T", decl: "<T>", wh: "", tys: &["T", "Option<T>", "Vec<T>", "Box<T>", "::core::marker::PhantomData<T>", "(T, u8)", "fn(T) -> T", "*const T", "[T; 2]", "::core::cell::Cell<T>"], pair: None },
     Gen { name: "T,U", decl: "<T, U>", wh: "", tys: &["(T, U)"], pair: Some(("T", "U")) },
@@ -61,6 +61,7 @@ const GENS: [Gen; 15] = [
     Gen { name: "where nested Self", decl: "<T>", wh: "where Option<Self>: Marker, T: Into<Box<Self>>", tys: &["T", "Option<T>"], pair: None },
     Gen { name: "inline bound with Self", decl: "<T: PartialEq<Vec<Self>>>", wh: "", tys: &["T", "Box<T>"], pair: None },
     Gen { name: "'a alone", decl: "<'a>", wh: "", tys: &["&'a i8"], pair: None },
+    Gen { name: "where qualified Self", decl: "<T>", wh: "where Self: Tr, <Self as Tr>::Assoc: Marker", tys: &["T", "Option<T>"], pair: None },
 ];
 
 /// 0 unit struct, 1 tuple1, 2 tuple2, 3 named1, 4 named2, 5 empty enum, 6 enum{A}, 7 enum{A(f)}, 8 enum{A{f}}, 9 enum{A, B(f,f), C{f}}
